@@ -98,6 +98,13 @@ Proof. exact (fun ws qlen opened evs id s tr =>
   complete_when_keeping_up max_payload_size ws qlen opened evs id s tr max_payload_ok). Qed.
 Print Assumptions C10_complete_when_keeping_up.
 
+(* WithReadQueueLength: the capacity of every incoming queue is the configured length, whatever it is (where the
+   channel's capacity comes from is read from mux.go on every run: MuxConsts.queue_cap_is_configured), so the
+   theorem above, which holds for every qlen, speaks about the configured length — above the default too *)
+Theorem C10_queue_length_is_configured : forall rx q opened, init_mux_cfg rx q opened = init_mux rx q opened.
+Proof. exact queue_length_is_configured. Qed.
+Print Assumptions C10_queue_length_is_configured.
+
 (* ---- the caller's buffer (conn.Read's guard, copy and count; which of len/cap the guard tests is read
    from mux.go on every run: MuxConsts.read_checks_len) ---- *)
 
@@ -166,6 +173,17 @@ Example C10_example_schedule :
   let '(s, tr) := run_mp 4 (init_mux (trunk_mp 4 ex_ws) 1 [1;2]) evs in
   m_err s = None /\ m_rx s = [] /\ conn_open 2 s = true /\ late_opened 2 s = false /\
   received 2 tr ++ queue_in 2 s = [[20;21;22;23];[24;25;26;27];[28]].
+Proof. vm_compute. repeat split. Qed.
+(* a queue longer than the default: 260 one-byte frames queued with nobody reading and qlen 300 — no error,
+   all are there; the same with the default length 256 overflows at the 257th *)
+Example C10_example_qlen_above_default :
+  read_queue_len = 256 /\
+  let ws := map (fun k => (1, [N.of_nat k])) (seq 0 260) in
+  let evs := map (fun _ => EvReader) (seq 0 260) in
+  let '(s, _) := run (init_mux_cfg (trunk ws) 300 [1]) evs in
+  let '(s', _) := run (init_mux_cfg (trunk ws) read_queue_len [1]) evs in
+  m_err s = None /\ m_rx s = [] /\ lenN (queue_in 1 s) = 260 /\ queue_in 1 s = written_frames 1 ws /\
+  m_err s' = Some EErr /\ lenN (queue_in 1 s') = 256.
 Proof. vm_compute. repeat split. Qed.
 (* buffers: len < frame <= cap (ENOMEM, the frame is gone), len = frame, len > frame; read_checks_len as generated *)
 Example C10_example_buffers :
